@@ -177,6 +177,8 @@ class OpacityCache(Singleton):
         """
         GlobalCache()['xsec_interpolation'] = interpolation_mode
         self.clear_cache()
+        from .ktablecache import KTableCache
+        KTableCache().clear_cache()
     
     
 
